@@ -43,6 +43,8 @@ for d in sorted(glob.glob('/verif/seeded/*/')):
     mj = os.path.join(d, 'meta.json')
     if os.path.exists(mj):
         m = json.load(open(mj))
+        if m.get('expect_detected') is False:
+            continue  # kept for the record only (see meta.json: not a violation under one reading / neutralised by a fix)
         print('seeded-' + os.path.basename(d.rstrip('/')), m['property'], os.path.join(d, 'patch.diff'))
 PY
 while read -r name prop patch; do
